@@ -292,7 +292,7 @@ def build_mixed(ch, acc, with_ack_groups=True, **kw):
 
 
 ENVELOPE_FAULTS = ['se-count', 'se-id', 'ge-count', 'ge-id', 'iea-count', 'iea-id', 'gs-date', 'gs-time', 'st-dup', 'gs-dup', 'gs-code',
-                   'se-count-alpha', 'st-id-long', 'se-count', 'st-dup', 'st-many-codes', 'st-many-codes', 'st-many-codes', 'drop-trailer', 'st-dup-far', 'gs-dup-far', 'trailer-and-neighbour', 'trailer-and-neighbour', 'envelope-extra-element', 'envelope-extra-element', 'stray-after-trailer', 'stray-after-trailer', 'spelling', 'spelling', 'spelling']
+                   'se-count-alpha', 'st-id-long', 'se-count', 'st-dup', 'st-many-codes', 'st-many-codes', 'st-many-codes', 'drop-trailer', 'st-dup-far', 'gs-dup-far', 'trailer-and-neighbour', 'trailer-and-neighbour', 'envelope-extra-element', 'envelope-extra-element', 'stray-after-trailer', 'stray-after-trailer', 'spelling', 'spelling', 'spelling', 'header-cut-short', 'header-cut-short']
 
 
 def envelope_fault(doc, ch):
@@ -347,6 +347,10 @@ def _envelope_fault(doc, ch):
             s_.tags.add('lead-blank')
         if what in ('trail-sep', 'both'):
             s_.tags.add('trail-sep')
+    elif kind == 'header-cut-short':
+        # a header that ends before its control number (ST*837, GS*HC*A*B*20040101*1230)
+        s_ = pick(ch.choice(['ST', 'ST', 'GS']))
+        s_.vals = list(s_.vals)[:1] if s_.id == 'ST' else list(s_.vals)[:5]
     elif kind == 'envelope-extra-element':
         # one element more than the header / trailer defines
         s_ = pick(ch.choice(['ST', 'SE', 'ST', 'SE', 'GS', 'GE', 'IEA']))
